@@ -9,7 +9,7 @@ from common import Cmat, Cx, R, Rmat, cfl, fl, flmat, max_rel_err
 
 from common import wiring_pre_build as pre_build  # noqa: E402,F401
 
-LEAN_MODULES = ["PyomaVerif.Props.C01", "PyomaVerif.Props.WiringRun", "PyomaVerif.Props.C01C11", "PyomaVerif.Props.C01E2E"]
+LEAN_MODULES = ["PyomaVerif.Props.C01", "PyomaVerif.Props.WiringRun", "PyomaVerif.Props.C01C11", "PyomaVerif.Props.C01E2E", "PyomaVerif.Props.C01Stored"]
 THEOREMS = [
     # call-site wiring of the class layer, regenerated from /repo on every run (translate_wiring.py)
     "PV.WiringRun.C12_run_build_hank",
@@ -49,6 +49,15 @@ THEOREMS = [
     "PV.C01E2E.C01_pole_pair",
     "PV.C01E2E.Ex.recovered",
     "PV.C01E2E.ExDat.recovered",
+    # depth round (audit C01 gap 1): identification composed with the hard criteria -> the STORED tables
+    "PV.C01Stored.toMat_ssiRaw_fn",
+    "PV.C01Stored.C01_stored",
+    "PV.C01Stored.C01_stored_neutral",
+    "PV.C01Stored.C01_stored_cov",
+    "PV.C01Stored.C01_stored_dat",
+    "PV.C01Stored.Ex.stored",
+    "PV.C09Stored.C09_raw_survives",
+    "PV.C09Stored.C09_neutral_identity",
 ]
 RULE = (
     "correspondence: ssi.SSI_fast, ssi.SSI, ssi.ac2mp and the SSI_poles table pattern vs the Lean model, the LAPACK results "
